@@ -200,6 +200,9 @@ func c05Pool(unitIDs map[string]uint64) []c05Val {
 			add(c05DateTime(2020, 1, 1, 10, 30, 15, 250, prec, off))
 		}
 	}
+	// hour and minute precision under offsets that are not whole hours: the same UTC hour / minute reached differently
+	add(c05DateTime(2012, 1, 1, 10, 0, 0, 0, 3, "+00:30"), c05DateTime(2012, 1, 1, 9, 0, 0, 0, 3, "Z"), c05DateTime(2012, 1, 1, 15, 0, 0, 0, 3, "+05:45"), c05DateTime(2012, 1, 1, 9, 0, 0, 0, 3, "+00:00"),
+		c05DateTime(2012, 1, 1, 8, 0, 0, 0, 3, "-01:30"))
 	add(c05DateTime(2020, 1, 2, 0, 30, 0, 0, 5, "+05:30"), c05DateTime(2020, 1, 1, 5, 0, 15, 250, 6, "Z"), c05DateTime(2019, 12, 31, 23, 30, 15, 0, 5, "-11:00"),
 		c05DateTime(2020, 1, 1, 10, 30, 15, 0, 5, ""), c05DateTime(2020, 1, 1, 10, 30, 16, 0, 5, ""), c05DateTime(2020, 1, 1, 11, 0, 0, 0, 3, ""), c05DateTime(2021, 6, 15, 0, 0, 0, 0, 1, ""))
 	add(c05Val{coq: "VDateTime " + zlist(2020, 1, 1, 10, 30, 15000000000), env: &dtpb.DateTime{ValueUs: 1577874615000000, Precision: dtpb.DateTime_SECOND, Timezone: "+02:00"}, kind: "FHIR.dateTime"},
